@@ -110,7 +110,7 @@ CLAIMS = {
         "note": "PARTIAL: atomic polls; thread interleavings not covered; blocking forms covered through the resume-equals-poll theorems only (the park/unpark itself is not modelled). event-listener is modelled (notify_additional(usize::MAX) as 'notify every listener').",
     },
     "C05": {
-        "text": "No-lost-wake-up for the Mutex is a Lean theorem (invariant MInv: word, registration, wake bookkeeping, baton; induction over every history: any number of futures, cancellation at any moment of a future's life, completed futures kept alive, spurious polls and new wakers, bargers, both outcomes of the starvation test) about a model that includes event-listener's list semantics; the most-recent-waker clause is a separate theorem. " + _TIE + " Compared fields: outcome, wakers called, state word, listener count, notified flag." + (_CALLS % "C05") + _ATLOG + _SEARCH + _INJW,
+        "text": "Blocking forms: C05_blocking_is_poll proves that the code path on which a thread parked in lock_blocking / lock_arc_blocking resumes (listener consumed, then the CAS / fetch_or of the loop it parked in) transforms the mutex exactly as the poll of the notified future does, so the poll-history theorems cover parked threads. No-lost-wake-up for the Mutex is a Lean theorem (invariant MInv: word, registration, wake bookkeeping, baton; induction over every history: any number of futures, cancellation at any moment of a future's life, completed futures kept alive, spurious polls and new wakers, bargers, both outcomes of the starvation test) about a model that includes event-listener's list semantics; the most-recent-waker clause is a separate theorem. " + _TIE + " Compared fields: outcome, wakers called, state word, listener count, notified flag." + (_CALLS % "C05") + _ATLOG + _SEARCH + _INJW,
         "note": "PARTIAL: polls are atomic in the model; thread interleavings and lock_blocking waiters are not covered by the theorem. event-listener is modelled, not verified (but executes in-process in every differential run).",
     },
     "C07": {
